@@ -6,7 +6,7 @@ the final override slot.  Property-shaped cases (kind = norm / iso / marsh / lea
 additionally go through a model-free oracle that recomputes the right-hand side of the property
 with plain datetime arithmetic in UTC.
 """
-import sys, os, json, math, types, datetime as _dtm, zoneinfo as _zi, re as _re
+import sys, os, json, math, random, types, datetime as _dtm, zoneinfo as _zi, re as _re
 
 ID = 'C12'
 import gen_C12
@@ -197,7 +197,29 @@ def show_mrec(m):
     tz = 'A' if 'tzname' not in m else ('N' if m['tzname'] is None else 'S' + str(m['tzname']))
     return ','.join(str(m[k]) for k in keys) + ',' + tz
 
+# the PROCESS time zone each case runs under (TZ + time.tzset()): nothing in the property depends on it — the overridden
+# clock is UTC — so code that slips local time in (time.mktime, datetime.timestamp of a naive value, fromtimestamp) shows up
+PTZS = ['UTC', 'Asia/Tokyo', 'America/New_York', 'Pacific/Chatham', 'Europe/Lisbon', 'XYZ-3:30', 'Australia/Lord_Howe', 'ABC+9:45DEF,M3.2.0,M11.1.0']
+
+class process_tz:
+    def __init__(self, tz): self.tz = tz
+    def __enter__(self):
+        import time as _t
+        self.saved = os.environ.get('TZ')
+        if self.tz is not None:
+            os.environ['TZ'] = self.tz; _t.tzset()
+    def __exit__(self, *a):
+        import time as _t
+        if self.tz is not None:
+            if self.saved is None: os.environ.pop('TZ', None)
+            else: os.environ['TZ'] = self.saved
+            _t.tzset()
+
 def impl(case):
+    with process_tz(case.get('ptz')):
+        return _impl(case)
+
+def _impl(case):
     tu = _tu()
     saved_mod = tu.datetime
     outs = []
@@ -755,18 +777,26 @@ def fixed_cases():
     return out
 
 GENS = [(gen_td, 8), (gen_fold, 12), (gen_dst, 8), (gen_fixture, 6), (gen_norm, 10), (gen_iso, 10), (gen_marsh, 10), (gen_leap, 5), (gen_unm, 8), (gen_clock, 12), (gen_cmp, 25), (gen_seq, 10), (gen_parse, 5), (gen_cal, 8), (gen_dsec, 4)]
+def with_ptz(cases, rng):
+    """every case of every family gets a process time zone: the fixed ones cycle through the list, the others draw one"""
+    for i, c in enumerate(cases):
+        c['ptz'] = PTZS[i % len(PTZS)] if rng is None else rng.choice(PTZS)
+        yield c
+
 def gen_cases(rng, tier):
-    yield from fixed_cases()
+    yield from with_ptz(fixed_cases(), None)
     n = 5000 if tier == 'quick' else 500000
     fs = [g for g, w in GENS for _ in range(w)]
+    trng = random.Random(rng.random())
     for _ in range(n):
-        yield rng.choice(fs)(rng)
+        yield from with_ptz([rng.choice(fs)(rng)], trng)
 
 def search(rng, budget):
     fs = [gen_cmp] * 4 + [gen_fold] * 3 + [gen_dst] * 3 + [gen_fixture] * 2 + [gen_clock] * 2 + [gen_marsh, gen_leap, gen_norm, gen_iso, gen_unm]
-    yield from fixed_cases()
+    yield from with_ptz(fixed_cases(), None)
+    trng = random.Random(rng.random())
     for _ in range(budget):
-        yield rng.choice(fs)(rng)
+        yield from with_ptz([rng.choice(fs)(rng)], trng)
 
 # ---------------------------------------------------------------- oracle: the property, recomputed with UTC arithmetic
 def utc_instant(d):
@@ -953,7 +983,7 @@ ASSUMPTIONS = ['second counts are compared at microsecond resolution: s means ti
                'the overridden clock of the comparison theorems is naive UTC; an override in a zoneinfo zone with a varying offset is not modelled (cases are implementation-only)',
                'a list override is popped per call and is NOT moved by advance_time_* (theorems C12_utcnow_pops_in_order, C12_advance_list_noop state what the code does)',
                'parse_strtime / PERFECT_TIME_FORMAT (strptime) is library behaviour and not part of the property text: not modelled']
-RULE = ('cases = world (override slot, fake OS clock) + command list; kinds: td (timedelta(seconds=x): floats n/1e6 whose binary64 product with 1e6 is not n, ties, dyadic, subnormal, inf/nan/range edges), dst (windows spanning a UTC-offset change of t\'s zone, t at the boundary), norm (naive/aware x fixed offsets -23:59..+23:59, sub-minute offsets, %d zoneinfo zones incl. fold), '
+RULE = ('cases = world (override slot, fake OS clock) + command list, each run under a process time zone (TZ + tzset: UTC, Asia/Tokyo, America/New_York, Pacific/Chatham, Europe/Lisbon, Australia/Lord_Howe, two POSIX strings); kinds: td (timedelta(seconds=x): floats n/1e6 whose binary64 product with 1e6 is not n, ties, dyadic, subnormal, inf/nan/range edges), dst (windows spanning a UTC-offset change of t\'s zone, t at the boundary), norm (naive/aware x fixed offsets -23:59..+23:59, sub-minute offsets, %d zoneinfo zones incl. fold), '
         'iso (isoformat -> parse_isotime), marsh (marshall_now + round trip; naive/UTC variants/other zones), leap (second 58..99), unm (arbitrary dicts, tznames), '
         'clock / fixture (scalar override, utcnow, utcnow_ts, advances by delta or int/float seconds, module functions and TimeFixture methods interleaved, re-set mid-way), cmp (is_older/newer/soon with t placed at '
         'the boundary now -/+ s and +-1 us, +-2 us, +-1 s, rendered naive / aware / ISO text), seq (random command sequences incl. list overrides, aware overrides, clear), parse (every form iso8601 accepts: date only, basic, mixed, 1-digit fields, Z/+hh/+hhmm/+hh:mm, fractions of 1..46 digits incl. Decimal-rounding carries, comma, trailing newline; malformed and mutated text; each through the combined and the regex-only model), '
